@@ -86,7 +86,13 @@ def Max(a, b):
 
 
 def Abs(a):
+    if isinstance(a, SymBase) and not in_quant():
+        return abs(a)
     return Ite(a >= 0, a, -a)
+
+
+def in_quant():
+    return HAVE_Z3 and sym.in_quantifier()
 
 
 # ---- quantifiers ----------------------------------------------------------------------------
@@ -171,10 +177,21 @@ def to_real(x):
     return x
 
 
+def div(a, b):
+    """a / b for specs: no ZeroDivisionError fork (guard with b != 0 in the formula)."""
+    if _any_sym(a, b):
+        p = sym._pair(a, b)
+        x, y = sym.as_real(p[0], p[2]), sym.as_real(p[1], p[2])
+        return SymReal(sym.real_div(x, y))
+    if b == 0:
+        return float("nan")
+    return a / b
+
+
 def is_int_valued(x):
     """x is a mathematical integer."""
     if isinstance(x, SymReal):
-        return SymBool(z3.ToReal(z3.ToInt(x.t)) == x.t)
+        return SymBool(z3.ToReal(sym._floor_real(x.t)) == x.t)
     if isinstance(x, (SymInt,)):
         return True
     if isinstance(x, numbers.Integral):
